@@ -39,7 +39,7 @@ def strategy_impl(draw, tier):
     axes = draw(gen.layouts(max_axes=3, min_n=3, max_n=5, max_cells=200, allow_default_shifts=False))
     names = [a["name"] for a in axes]
     by = {a["name"]: a for a in axes}
-    ndum = draw(st.integers(1, min(2, len(names))))
+    ndum = draw(st.integers(1, min(3, len(names))))
     dummies = draw(st.lists(st.sampled_from(DUMMIES), min_size=ndum, max_size=ndum, unique=True))
     reals = draw(st.permutations(names))[:ndum]
     bind = dict(zip(dummies, reals))
@@ -71,7 +71,7 @@ def strategy_impl(draw, tier):
         common = [d for d in common if all(any(d == x for x, _ in arg) for arg in sig_out)] if n_out else []
     want_bw = draw(st.sampled_from([1, 1, 1, 0]))
     bw_names = draw(st.lists(st.sampled_from(common), unique=True, min_size=want_bw, max_size=len(common))) if common else []
-    bw = {d: [draw(st.sampled_from([1, 2, 0])), draw(st.sampled_from([1, 0, 2]))] for d in bw_names} or None
+    bw = {d: [draw(st.sampled_from([1, 2, 0, 3])), draw(st.sampled_from([1, 0, 2, 3]))] for d in bw_names} or None
     if not pad_before and bw:
         # outputs must keep a positive length after removing the widths
         for arg in sig_out:
@@ -342,6 +342,17 @@ def check(case, ctx):
 
     # ---- `dask` bound at definition time acts as if passed at call time; the call-time value wins
     lazy = case.get("lazy", "no")
+    if lazy != "no" and route != "apply" and pad_before and bw:
+        # open finding of C06 (recorded there): dask's wrap-padding silently truncates a pad wider than the axis; that input
+        # class is left to C06's pinned reproducer
+        too_wide = False
+        for inp, arg in zip(case["inputs"], case["sig_in"]):
+            for d, p in arg:
+                if d in bw and rules[bind[d]] == "periodic" and max(bw[d]) > gen.pos_len(by[bind[d]]["n"], p):
+                    too_wide = True
+        if too_wide:
+            ctx.note("lazy_part_skipped_periodic_pad_wider_than_axis")
+            lazy = "no"
     if lazy != "no" and route != "apply" and pad_before:
         import dask
 
